@@ -47,8 +47,10 @@ class Edge:
                 return build.add_source(f)
             return f
 
-        self.extra_deps = [objectify(i, Node, make, (str, Path))
-                           for i in iterate(extra_deps)]
+        # Dual-use libraries aren't nodes themselves; depend on both halves.
+        self.extra_deps = [objectify(j, Node, make, (str, Path))
+                           for i in iterate(extra_deps)
+                           for j in getattr(i, 'all', [i])]
         build.add_edge(self)
 
 
